@@ -39,6 +39,9 @@ def run(ctx):
         r3_r5(ctx, facts, cfg)
         r4(ctx, facts, cfg)
         r6_api_layer(ctx, facts, cfg)
+        # the handler's fallback logger is a valid one (= C17.R10)
+        from rules import c17
+        c17.r10_get_valid_logger(ctx, facts, cfg, rule="C07.R4r")
 
 
 def r1(ctx, facts, cfg):
